@@ -374,7 +374,7 @@ impl Prop for C19 {
         if case.hash_seed % 4 == 0 {
             x.begin_op(98);
             let other: &[u8] = b"EARLIER\nQBL\nminimize\n2\n1\n1\n1 1 2.0\n0.0\n";
-            let _ = x.sut(|| ommx::qplib::QplibFile::from_reader(other).map(|_| ()));
+            let _ = x.quietly(|x| x.sut(|| ommx::qplib::QplibFile::from_reader(other).map(|_| ())));
             x.count("probe.earlier_call_on_the_same_thread");
         }
         x.begin_op(0);
